@@ -23,11 +23,12 @@ from pathlib import Path
 
 ROOT = Path(__file__).resolve().parent.parent
 REPO = Path(os.environ.get("VERIF_REPO", "/repo"))
-BUILD = ROOT / "build"
-LEAN = ROOT / "lean"
+# VERIF_BUILD / VERIF_LEAN let a developer run a fully isolated copy (e.g. against a mutated scratch repository)
+BUILD = Path(os.environ.get("VERIF_BUILD", ROOT / "build"))
+LEAN = Path(os.environ.get("VERIF_LEAN", ROOT / "lean"))
 HARNESS = ROOT / "harness"
-EVID = ROOT / "evidence"
-REPLAYS = ROOT / "replays"
+EVID = Path(os.environ.get("VERIF_EVID", ROOT / "evidence"))
+REPLAYS = Path(os.environ.get("VERIF_REPLAYS", ROOT / "replays"))
 KNOWN = ROOT / "known_findings.txt"
 GUARD = "IPHREEQC_VERIF"
 NCPU = os.cpu_count() or 4
